@@ -587,6 +587,38 @@ func (e *GenEnv) build(s *GenSpec) *Built {
 			f["filterok"] = pred(v)
 			return f
 		}}
+	case "RecTree": // a recursive generator: the SAME distinct-slice generator object is entered again while it produces one of its own elements
+		type tree struct {
+			ID   int
+			Kids []any
+		}
+		var node *rapid.Generator[any]
+		kids := rapid.SliceOfNDistinct(rapid.Deferred(func() *rapid.Generator[any] { return node }), 0, 4, func(v any) int { return v.(tree).ID })
+		node = rapid.Custom(func(t *rapid.T) any {
+			userCallback()
+			id := rapid.IntRange(0, 5).Draw(t, "id")
+			if rapid.IntRange(0, 2).Draw(t, "leaf") != 0 {
+				return tree{ID: id}
+			}
+			return tree{ID: id, Kids: kids.Draw(t, "kids")}
+		})
+		var distinct func(v any) bool
+		distinct = func(v any) bool {
+			tr, ok := v.(tree)
+			if !ok {
+				return false
+			}
+			seen := map[int]bool{}
+			for _, k := range tr.Kids {
+				kt, ok := k.(tree)
+				if !ok || seen[kt.ID] || !distinct(k) {
+					return false
+				}
+				seen[kt.ID] = true
+			}
+			return len(tr.Kids) <= 4
+		}
+		return &Built{G: node, Desc: s.K, Check: func(v any) F { return F{"c": "pred", "ok": distinct(v)} }}
 	case "FilterChain": // IntRange(0, 100000) with MinLen Filter calls chained on the typed generator; Derive(k) chains one more, different for every k
 		base := rapid.IntRange(0, 100000)
 		for j := 0; j < optInt(s.MinLen, 0); j++ {
